@@ -521,13 +521,24 @@ impl Axecutor {
         let mut area_to_resize = None;
 
         // Also make sure there's no overlapping area already defined, including code region
+        if new_size > 0 && start_addr.checked_add(new_size - 1).is_none() {
+            return Err(AxError::from(format!(
+                "Cannot resize section at address {start_addr:#x} to length {new_size}, as it does not fit into the address space"
+            )));
+        }
+
         for (i, area) in self.state.memory.iter().enumerate() {
             if start_addr == area.start {
                 area_to_resize = Some(i);
+                continue;
             }
 
-            // Make sure the new length doesn't overlap with any other area after it
-            if start_addr + new_size > area.start {
+            // Make sure the new extent doesn't overlap with any other area
+            if new_size > 0
+                && area.length > 0
+                && start_addr <= area.start + (area.length - 1)
+                && area.start <= start_addr + (new_size - 1)
+            {
                 return Err(AxError::from(format!(
                     "Cannot resize section at address {:#x} to length {}, as it overlaps with another section starting at {:#x} (len={})",
                     start_addr, new_size, area.start, area.length
